@@ -18,8 +18,9 @@ import subprocess
 from . import assemble, rustlex
 
 VERIF = assemble.VERIF
-EXPAND_DIR = os.path.join(VERIF, ".cache", "expand")
-EXPAND_TARGET = os.path.join(VERIF, ".cache", "expand-target")
+_CACHE = os.environ.get("VERIF_CACHE") or os.path.join(VERIF, ".cache")
+EXPAND_DIR = os.path.join(_CACHE, "expand")
+EXPAND_TARGET = os.path.join(_CACHE, "expand-target")
 
 PRIMS = {"u8", "i8", "u16", "i16", "u32", "i32", "u64", "i64", "u128", "i128", "bool"}
 
@@ -339,7 +340,7 @@ def make(crates=("chia-protocol",), limit=None, hw=True, part=None, parts=1, out
     stats["opaque"] = sorted(declared_opaque)
     L("} // verus!")
     L("fn main() {}")
-    out = os.path.join(VERIF, ".cache", "gen", out_name + ".vrs")
+    out = os.path.join(_CACHE, "gen", out_name + ".vrs")
     os.makedirs(os.path.dirname(out), exist_ok=True)
     open(out, "w").write("\n".join(lines) + "\n")
     return out, stats
